@@ -133,7 +133,7 @@ type sched struct {
 	finished bool
 	deadlock bool
 	overrun  bool
-	blocked  []string
+	blocked  []Blocked
 	panicMsg string
 	diverged string
 	result   any
@@ -196,12 +196,40 @@ func (s *sched) finish() {
 	s.doneCh <- struct{}{}
 }
 
+// Blocked describes one thread of a deadlocked execution: what it waits for and who holds it.
+type Blocked struct {
+	Thread       int    `json:"thread"`
+	Op           string `json:"op"`
+	HolderThread int    `json:"holder_thread"` // -1 unknown
+	HolderTick   int64  `json:"holder_tick"`   // logical time (Tick clock) at which the holder acquired it
+}
+
+func (b Blocked) String() string {
+	if b.HolderThread < 0 {
+		return fmt.Sprintf("T%d blocked in %s", b.Thread, b.Op)
+	}
+	return fmt.Sprintf("T%d blocked in %s (held by T%d since t=%d)", b.Thread, b.Op, b.HolderThread, b.HolderTick)
+}
+
 //go:norace
 func (s *sched) describeBlocked() {
 	for _, t := range s.threads {
-		if !t.done {
-			s.blocked = append(s.blocked, "T"+itoa(t.id)+" blocked in "+OpName(t.kind))
+		if t.done {
+			continue
 		}
+		b := Blocked{Thread: t.id, Op: OpName(t.kind), HolderThread: -1}
+		switch t.kind {
+		case OpLock:
+			h := (*Mutex)(t.obj).own
+			b.HolderThread, b.HolderTick = h.thread, h.tick
+		case OpRLock, OpWAnnounce:
+			h := (*RWMutex)(t.obj).own
+			b.HolderThread, b.HolderTick = h.thread, h.tick
+		case OpWLock:
+			h := (*RWMutex)(t.obj).rd
+			b.HolderThread, b.HolderTick = h.thread, h.tick
+		}
+		s.blocked = append(s.blocked, b)
 	}
 }
 
@@ -307,6 +335,9 @@ func (s *sched) record(t *thread) {
 //go:norace
 func (s *sched) point(kind int, obj unsafe.Pointer) {
 	t := s.cur
+	if t == nil {
+		Fatal("a primitive of a rewritten package was used by a goroutine that is not a managed thread while an exploration is running")
+	}
 	t.kind, t.obj = kind, obj
 	next := s.pick(t)
 	if next == nil {
